@@ -7,6 +7,7 @@ import Usid.Driver.Dup
 import Usid.Driver.MainCheck
 import Usid.Driver.Anc
 import Usid.Driver.Dims
+import Usid.Driver.Reshape
 /-! Line-protocol driver over the hand-written models: one JSON request per line on stdin,
     one JSON response per line on stdout. -/
 namespace Usid.Driver
@@ -22,7 +23,8 @@ def handlers : List (String × (Json → R Json)) := [
   ("dup.decide", hDupDecide),
   ("main.check", hMainCheck),
   ("anc.build", hAncBuild), ("anc.make", hAncMake), ("anc.write", hAncWrite),
-  ("dims.sort", hDimsSort), ("uv.get", hUvGet), ("uv.rebuild", hUvRebuild)
+  ("dims.sort", hDimsSort), ("uv.get", hUvGet), ("uv.rebuild", hUvRebuild),
+  ("rs.to_nd", hRsToNd), ("rs.wrapper", hRsWrapper), ("rs.from_nd", hRsFromNd)
 ]
 
 def respond (tbl : List (String × (Json → R Json))) (line : String) : String :=
